@@ -535,6 +535,8 @@ class Interp:
                 return len(recv)
         if m in ("to_string", "as_str", "to_lowercase_ascii") and not n["args"] and isinstance(recv, (str, int)) and not isinstance(recv, bool):
             return str(recv)
+        if m in ("as_bytes", "into_bytes", "into_boxed_str", "into_string", "as_mut_str") and not n["args"] and isinstance(recv, str):
+            return recv         # a text and its bytes are the same token here
         if m == "to_string" and not n["args"] and isinstance(recv, bool):
             return "true" if recv else "false"
         if m == "to_string" and not n["args"] and isinstance(recv, float):
